@@ -25,7 +25,10 @@ Big8b == <<It(0,"dir"), It(1,"dir"), It(2,"file"), It(2,"file"), It(1,"dir"), It
 SmallShapes == ShapesN(2) \cup ShapesN(3) \cup ShapesN(4)
 BigShapes   == {Big6, Big8, Big8b}
 
-FChoices(s, i) == FaultsOf(s[i].kind, s[i].parent = 0) \ (IF i = 1 THEN AllClasses \ {"none"} ELSE {})
+\* a listing can only break in the middle when there is something to list
+HasChild(s, i) == \E j \in DOMAIN s : s[j].parent = i
+FChoices(s, i) == (FaultsOf(s[i].kind, s[i].parent = 0) \ (IF i = 1 THEN AllClasses \ {"none"} ELSE {}))
+                  \ (IF HasChild(s, i) THEN {} ELSE {"readdir_partial"})
 
 NoFault(s) == [i \in DOMAIN s |-> "none"]
 Singles(s) == UNION {{[NoFault(s) EXCEPT ![i] = f] : f \in FChoices(s, i) \ {"none"}} : i \in DOMAIN s}
